@@ -183,7 +183,7 @@ Finite == LenT < Inf
 Bnd == (IF Finite THEN LenT ELSE 2) + 3          \* next() calls explored per scenario
 EQF == EqFrame(F, sc.ch)
 
-NoLast == [op |-> "init", out |-> EQF, eb |-> FALSE, ea |-> FALSE, insp |-> {}, j |-> 0]
+NoLast == [op |-> "init", out |-> EQF, eb |-> FALSE, ea |-> FALSE, insp |-> {}, j |-> 0, p |-> 0]
 Sig == [m |-> "sig", n0 |-> 0, tn |-> 0, left |-> 0, cur |-> IlNone(F, sc.ch), items |-> << >>,
         dones |-> 0, late |-> FALSE, byref |-> FALSE]
 \* a `src` leaf of the root's own format can be the iterator handed to `lift`
@@ -197,7 +197,7 @@ DoNext ==
   /\ mode.m = "sig" /\ n < Bnd
   /\ LET r == Step(X, T, F, "r", ns, pool) IN
      /\ ns' = r.ns /\ pool' = r.pool /\ n' = n + 1
-     /\ last' = [op |-> "next", out |-> r.out, eb |-> Exh(T, ns, pool), ea |-> Exh(T, r.ns, r.pool), insp |-> r.insp, j |-> 0]
+     /\ last' = [op |-> "next", out |-> r.out, eb |-> Exh(T, ns, pool), ea |-> Exh(T, r.ns, r.pool), insp |-> r.insp, j |-> 0, p |-> 0]
   /\ UNCHANGED << sc, rs, mode >>
 DoIsExh ==         \* &self: nothing changes
   /\ mode.m = "sig" /\ last.op # "ie"
@@ -238,6 +238,37 @@ IlStep ==
      /\ ns' = r.ns /\ pool' = r.pool /\ n' = n + r.k
      /\ mode' = [Yield(r) EXCEPT !.cur = r.cur]
   /\ last' = NoLast /\ UNCHANGED << sc, rs >>
+\* The PROVIDED methods of Iterator on the three adaptors.  Their default bodies (core::iter) are loops
+\* over `next`: nth(k) = up to k + 1 calls, stopping at the first None; count / last / fold / for_each /
+\* collect = the chain of calls to the first None (the *Step actions above, bounded by TakeN / CollectLen /
+\* Interleaved); skip / step_by reach the iterator through next and nth.  Layer 2 runs the nth loop on
+\* TakeNext / UeNext / IlNext from every position; IterNth holds it against layer 1 (Signals!ItRet).
+CNext(md, s, q) ==
+  CASE md.m = "take" -> LET r == TakeNext(X, T, F, md.left, s, q)
+                        IN [some |-> r.some, v |-> r.v, k |-> r.k, md |-> [md EXCEPT !.left = r.left], ns |-> r.ns, pool |-> r.pool]
+    [] md.m = "il"   -> LET r == IlNext(X, T, F, md.cur, s, q)
+                        IN [some |-> r.some, v |-> r.v, k |-> r.k, md |-> [md EXCEPT !.cur = r.cur], ns |-> r.ns, pool |-> r.pool]
+    [] OTHER         -> LET r == UeNext(X, T, F, s, q)
+                        IN [some |-> r.some, v |-> r.v, k |-> r.k, md |-> md, ns |-> r.ns, pool |-> r.pool]
+RECURSIVE NthLoop(_, _, _, _, _)
+NthLoop(c, md, s, q, kk) ==
+  LET r == CNext(md, s, q)
+      md1 == [r.md EXCEPT !.items = IF r.some THEN Append(@, r.v) ELSE @,
+                          !.dones = IF r.some THEN @ ELSE @ + 1,
+                          !.late  = @ \/ (r.some /\ md.dones > 0)]
+  IN IF ~r.some \/ c = 1 THEN [some |-> r.some, v |-> r.v, md |-> md1, ns |-> r.ns, pool |-> r.pool, k |-> kk + r.k]
+     ELSE NthLoop(c - 1, md1, r.ns, r.pool, kk + r.k)
+\* (quick: from every position of every consumer over the leaf-, delay- and add-rooted i16 scenarios;
+\*  thorough: over every leaf-rooted scenario in every sort and every i16 scenario of depth <= 1)
+NthScen == IF Quick THEN sc.fmt = "i16" /\ (Depth(T) = 0 \/ T.k \in {"delay", "add"})
+           ELSE Depth(T) = 0 \/ (sc.fmt = "i16" /\ Depth(T) <= 1)
+NthStep ==
+  /\ mode.m \in {"take", "ue", "il"} /\ mode.dones = 0 /\ NthScen
+  /\ \E k \in {1, 2} :
+       LET r == NthLoop(k + 1, mode, ns, pool, 0) IN
+       /\ ns' = r.ns /\ pool' = r.pool /\ n' = n + r.k /\ mode' = r.md
+       /\ last' = [NoLast EXCEPT !.op = "nth", !.j = k, !.p = Len(mode.items), !.ea = r.some, !.out = r.v]
+  /\ UNCHANGED << sc, rs >>
 \* the adaptor over `&mut root` is dropped (at any point): the root carries on
 CDrop ==
   /\ mode.m \in {"take", "ue", "il"} /\ mode.byref /\ (mode.dones = 1 \/ (mode.dones = 0 /\ Len(mode.items) = 1))
@@ -255,11 +286,11 @@ Resume ==
        /\ rs[j] < SrcLens[j] + 2
        /\ LET r == SrcNext(X.srcs[j], X.ch, pool[j]) IN
           /\ pool' = [pool EXCEPT ![j] = r.s]
-          /\ last' = [op |-> "resume", out |-> r.out, eb |-> ~pool[j].some, ea |-> ~r.s.some, insp |-> {}, j |-> j]
+          /\ last' = [op |-> "resume", out |-> r.out, eb |-> ~pool[j].some, ea |-> ~r.s.some, insp |-> {}, j |-> j, p |-> 0]
        /\ rs' = [rs EXCEPT ![j] = @ + 1]
   /\ UNCHANGED << sc, ns, n, mode >>
 
-Next == DoNext \/ DoIsExh \/ Start \/ TakeStep \/ UeStep \/ IlStep \/ CDrop \/ DropAll \/ Resume
+Next == DoNext \/ DoIsExh \/ Start \/ TakeStep \/ UeStep \/ IlStep \/ NthStep \/ CDrop \/ DropAll \/ Resume
 Spec == Init /\ [][Next]_vars
 
 ---------------------------------------------------------------------------
@@ -328,6 +359,19 @@ Interleaved ==
     /\ IsPrefix(mode.items, full) /\ ~mode.late
     /\ mode.dones >= 1 => mode.items = full /\ Len(full) = UeCount(X, T, mode.n0) * X.ch
 
+\* C05: nth(k) from any position = k + 1 calls of next: the item it returns (or None past the end),
+\*      the items used up, the frames pulled from the root
+IterNth ==
+  last.op = "nth" =>
+    LET full == CASE mode.m = "take" -> TakeItems(X, T, F, mode.n0, mode.tn)
+                  [] mode.m = "il"   -> IlItems(X, T, F, mode.n0)
+                  [] OTHER           -> UeItems(X, T, F, mode.n0)
+    IN /\ (IF last.ea THEN ItSome(last.out) ELSE ItNone) = ItRet(full, last.p, "nth", last.j)
+       /\ Len(mode.items) = ItPos(Len(full), last.p, "nth", last.j)
+       /\ n = mode.n0 + ItFrames(mode.m, Len(mode.items), X.ch)
+       /\ ItRet(full, Len(mode.items), "count", 0) = ItVal(Len(full) - Len(mode.items))
+       /\ mode.m = "take" => ItRet(full, Len(mode.items), "len", 0) = ItVal(mode.left)
+
 ---------------------------------------------------------------------------
 (* the TLC-integer sample operations agree with SampleFormats' limb definitions *)
 NativeOK ==
@@ -387,6 +431,17 @@ EvClone == [ev |-> "clone", a |-> [x |-> 0]]
 EvResume(j) == [ev |-> "resume", a |-> [src |-> j]]
 EvCollect(c, tn, k, byref, j) == [ev |-> "collect", a |-> [consumer |-> c, n |-> tn, k |-> k, cap |-> 64, byref |-> byref, j |-> j]]
 Rep(e, k) == [i \in 1..k |-> e]
+ItOp(o, k) == [op |-> o, k |-> k]
+EvDrive(c, tn, byref, ops) == [ev |-> "drive", a |-> [consumer |-> c, n |-> tn, cap |-> 64, byref |-> byref, ops |-> ops]]
+\* programs of Iterator methods (each reaches the end of the stream and says how much was left)
+ItProgs == << << ItOp("nth", 1), ItOp("hint", 0), ItOp("drain", 0), ItOp("count", 0) >>,
+              << ItOp("next", 0), ItOp("skip", 1) >>,
+              << ItOp("step_by", 2) >>,
+              << ItOp("nth", 0), ItOp("find", 2), ItOp("hint", 0), ItOp("last", 0) >>,
+              << ItOp("any", 2), ItOp("nth", 2), ItOp("fold", 0) >>,
+              << ItOp("position", 1), ItOp("all", 2), ItOp("for_each", 0) >>,
+              << ItOp("skip", 2) >>,
+              << ItOp("nth", 2), ItOp("hint", 0), ItOp("vec", 0) >> >>
 
 \* thorough: every call sequence / consumer variant for the depth <= 1 scenarios, the core ones for
 \* depth 2.  quick: the core ones, plus one `&mut` consumer variant and one drop point per scenario
@@ -419,6 +474,11 @@ Execs(s) ==
                                   ELSE IF sel = 2 THEN {seqCl} ELSE {})
               ELSE {consCl("take_clone", B, k) : k \in {1, 2}} \cup {seqCl}
                    \cup (IF fin THEN {consCl("ue_clone", 0, k) : k \in {1, 2}} ELSE {})
+      \* programs of Iterator methods on the consumers (`drive`): quick one per scenario, rotating
+      drv(i) == LET c == IF fin THEN << "take", "ue", "il" >>[((sel + i) % 3) + 1] ELSE "take"
+                    byref == (i + B) % 2 = 1
+                IN << reset >> \o Rep(EvNext, i % 2) \o << EvDrive(c, B, byref, ItProgs[((sel + 3 * i + B) % Len(ItProgs)) + 1]) >> \o after(byref)
+      drives == IF Quick THEN {drv(Cardinality(KindsOf(s.term)) % 2)} ELSE {drv(i) : i \in {0, 1, 2}}
       drops(ds) == {<< reset >> \o Rep(EvNext, d) \o << EvDrop >> \o resumes : d \in (IF brs = {} THEN {} ELSE ds)}
       seqNext == << reset >> \o Rep(EvNext, B)
       seqIe == << reset, EvIe >> \o Flat(Rep(<< EvNext, EvIe >>, B)) \o << EvIe >>
@@ -443,7 +503,7 @@ Execs(s) ==
                 ELSE {stSeq(2)} \cup (IF Quick /\ sel % 2 = 1 THEN {} ELSE stCons(2))
   IN {cons(0, "take", 2, FALSE, 0)} \cup static
      \cup (IF fin THEN {cons(0, "ue", 0, FALSE, 0), cons(0, "il", 0, FALSE, 0)} ELSE {})
-     \cup (IF shallow THEN ilCl \cup itCl ELSE {})
+     \cup (IF shallow THEN ilCl \cup itCl \cup drives ELSE {})
      \cup (IF ~shallow THEN {seqNext}
            ELSE IF Quick
              THEN {seqIe, mutCons[(sel % Len(mutCons)) + 1]}
